@@ -41,6 +41,14 @@ STAR_NAMES = {'from fx_star import *': ['s1', 's2', 'a'], 'from fx_pkg.sub impor
               'from fx_glob import *': ['GLEVEL', 'gflag', 'gplain']}
 ALL_STAR_NAMES = {n for v in STAR_NAMES.values() for n in v}
 REL_IMPORTS = [('from . import sub', ['sub']), ('from .sub import sa as {n}', None), ('from . import rel as {n}', None)]
+# a module of the nested package fx_pkg.inner: relative imports of level 1 and 2 from one directory
+REL_IMPORTS2 = [('from . import leaf', ['leaf']), ('from .leaf import la as {n}', None), ('from .. import sub', ['sub']),
+                ('from ..sub import sa as {n}', None), ('from .. import rel as {n}', None), ('from ..rel import rel_attr as {n}', None)]
+REL_STAR = {1: {'from .sub import *': ['sa', 'sb']},
+            2: {'from ..sub import *': ['sa', 'sb'], 'from .leaf import *': ['la', 'lb']}}
+for _v in REL_STAR.values():
+    for _ns in _v.values():
+        ALL_STAR_NAMES.update(_ns)
 
 
 class Ctx(object):
@@ -84,7 +92,8 @@ class B(object):
     def readable(self, ctx):
         """A name to read: mostly pool names, sometimes functions/classes/builtins/never-bound."""
         k = self.draw(st.integers(0, 19))
-        bound = [n for n in ctx.get('bound', ()) if n in POOL or n[:1] in 'ijw' or n[:2] == 'ex' or n == 'self' or n in ALL_STAR_NAMES]
+        bound = [n for n in ctx.get('bound', ()) if n in POOL or n[:1] in 'ijw' or n[:2] == 'ex' or n == 'self' or n in ALL_STAR_NAMES
+                 or (n[:1] == 'g' and n[1:].isdigit())]
         if k < 16 and bound:
             return self.pick(bound)
         if k < 13:
@@ -774,7 +783,18 @@ class B(object):
                   bound=list(ctx.get('bound', [])))
         saved_funcs = dict(self.funcs)
         c2['methods'] = {}
+        gname = None
+        if self.chance(12):
+            # a global declaration in a class body: what the body binds under it belongs to the module. A name of its own
+            # (g1, g2 ...), so that this binding is the only one a later read can mean
+            self.gcount = getattr(self, 'gcount', 0) + 1
+            gname = 'g%d' % self.gcount if self.chance(70) else self.pick(POOL)
+            lines.append(ind + '    global %s' % gname)
+            lines.append(ind + '    %s = %s' % (gname, self.expr(c2, 1)))
+            self.features.add('global-in-class-body')
         lines += self.block(c2, ind + '    ', depth + 1, 1, 4)
+        if gname:
+            self.bind(ctx, [gname] * 3)
         self.funcs = saved_funcs
         if not deco:
             self.bind(ctx, [cname])
@@ -791,7 +811,7 @@ class B(object):
     def s_import(self, ctx, ind, depth):
         forms = list(FIXTURE_IMPORTS)
         if self.package:
-            forms += REL_IMPORTS
+            forms += REL_IMPORTS2 if self.package == 2 else REL_IMPORTS
         text, bound = self.pick(forms)
         if bound is None:
             n = self.name()
@@ -807,11 +827,30 @@ class B(object):
 
     def s_star(self, ctx, ind, depth):
         self.features.add('star-import')
-        line = self.pick(STAR_IMPORTS)
-        self.bind(ctx, STAR_NAMES[line] * 2)
+        table = dict(STAR_NAMES)
+        table2 = REL_STAR[2]
+        if self.package:
+            table.update(REL_STAR[2 if self.package == 2 else 1])
+            if self.chance(50):
+                table = REL_STAR[2 if self.package == 2 else 1]
+                self.features.add('star-import-relative')
+        line = self.pick(sorted(table))
+        self.bind(ctx, table[line] * 2)
         b = ctx.setdefault('bound', [])
-        b.extend(n for n in STAR_NAMES[line] if n not in POOL)      # weight them up: they are what the import is for
-        return [ind + line, ind + 'use(%s)' % ', '.join(STAR_NAMES[line][:2])]
+        b.extend(n for n in table[line] if n not in POOL)      # weight them up: they are what the import is for
+        out = [ind + line, ind + 'use(%s)' % ', '.join(table[line][:2])]
+        if self.package == 2 and line.startswith('from .') and self.chance(60):
+            # relative imports of BOTH levels from one directory, in either order
+            # (a second star import, because star imports are the ones resolved while the module is being analysed)
+            oline = 'from ..sub import *' if line.startswith('from .leaf') else 'from .leaf import *'
+            other = [ind + oline, ind + 'use(%s)' % ', '.join(table2[oline])] if self.chance(60) else \
+                [ind + ('from .. import sub' if line.startswith('from .leaf') else 'from . import leaf')]
+            if len(other) == 2:
+                self.bind(ctx, table2[oline] * 2)
+                b.extend(n for n in table2[oline] if n not in POOL)
+            self.features.add('relative-imports-of-two-levels')
+            out = (other + out) if self.chance(50) else (out + other)
+        return out
 
     def s_return(self, ctx, ind, depth):
         self.features.add('return')
@@ -852,7 +891,7 @@ def _assigned_names(lines, ind):
 
 @st.composite
 def programs(draw, profile='c01', size=None):
-    package = draw(st.integers(0, 9)) < 2
+    package = {0: 1, 1: 1, 2: 2, 3: 2}.get(draw(st.integers(0, 9)), False)
     budget = [size or draw(st.integers(4, {'c01': 16, 'c02': 14, 'c03': 9}[profile]))]
     b = B(draw, profile, budget, package)
     lines = []
